@@ -852,6 +852,13 @@ func (c *Chunker) splitSectionByParagraphs(section *Section, chunkIndex *int, do
 
 		// Check if this element is part of an atomic block
 		atomicBlock := GetAtomicBlockAt(i, atomicBlocks)
+
+		// An element of white space only has nothing to contribute: left pending it
+		// would be carried, with its page, into a chunk emitted after later flushes
+		if atomicBlock == nil && strings.TrimSpace(elemText) == "" {
+			i++
+			continue
+		}
 		if atomicBlock != nil {
 			// Flush current content before atomic block
 			if currentText.Len() > 0 {
